@@ -1,5 +1,17 @@
 // K-pool — property C03, clause C03.6 (engine E2, Kani on the real crate).  BOUNDED.
 //
+// STATUS (2026-09-25): NOT REGISTERED in specs.json — does not fit the memory budget.  Measured with
+// Kani 0.68 / CBMC 6.11, default checks minus assertion-reach checks:
+//   pool_concrete_scenario (no symbolic input at all): 234 k SSA steps, 15 k VCCs, 11.3 M variables /
+//     51 M clauses, array post-processing 61 s, > 12 GB -> solver out of memory;
+//   pool_body::<2> (2 symbolic steps): 330-790 k steps, 19-40 k VCCs, > 12 GB;  pool_body::<4>: 1.57 M steps,
+//     59 GB -> killed by the kernel OOM killer.
+// The cost is in the real code (every State::drop may run Weak::upgrade -> Rc<StateStorage> drop ->
+// Vec<Rc<..>> drop glue, RefCell borrow flags, Vec growth/realloc), not in the harness: concrete slot
+// indices, no implicit drop glue and tight loop bounds (all applied below) only halved it.
+// The harnesses are kept because they type-check against the real private items and document the
+// intended obligation; clause C03.6 currently has NO E2 evidence (assumption A-rc stays an assumption).
+//
 // Included into `crate::dynamics::state` by the guarded hook
 //   #[cfg(all(kani, nuts_rs_verif))] #[path = "/verif/kani/k_pool.rs"] mod verif_kani;
 // (child module => sees the private `StateStorage::free_states`, `State::inner`).
@@ -341,20 +353,11 @@ fn pool_ops6() {
     pool_body::<6>();
 }
 
+/// Smallest concrete scenario (no symbolic choice at all); used to calibrate the cost of the real
+/// Rc / RefCell<Vec<Rc>> / Weak code under Kani's memory-safety instrumentation.
 #[kani::proof]
 #[kani::unwind(8)]
-fn pool_ops2() {
-    pool_body::<2>();
-}
-#[kani::proof]
-#[kani::unwind(8)]
-fn pool_ops3() {
-    pool_body::<3>();
-}
-
-#[kani::proof]
-#[kani::unwind(8)]
-fn pool_probe_concrete() {
+fn pool_concrete_scenario() {
     let mut math: M = CpuMath::new_with_arch(PLogp, pulp::Arch::Scalar);
     let pool: StatePool<M, KPoint> = StatePool::new(&mut math, 2 * SLOTS);
     let mut a = pool.new_state(&mut math);
